@@ -359,6 +359,18 @@ func (ex *Exec) callModified(in ssa.CallInstruction, ms *modSet) {
 		if ex.P.isPureMethod(c.Method.Name(), c.Value.Type()) {
 			return
 		}
+		if icon := ex.P.ifaceContract(c.Value.Type(), c.Method.Name()); icon != nil {
+			for _, m := range icon.Modifies {
+				if m.all {
+					ms.all = true
+				}
+				if m.allMaps {
+					ms.maps = true
+				}
+			}
+			ms.alloc = true
+			return
+		}
 	}
 	ms.all = true
 	ms.alloc = true
